@@ -9,6 +9,7 @@
   frozenset does not depend on the order of its entries.  No bound on sizes or depths.
 -/
 import PS.Proofs.HashEq
+import PS.Proofs.HashEqAssign
 namespace PS.C16
 open PS
 
@@ -110,7 +111,7 @@ theorem C16_assign_partial (h : HashFns) (hv hv' : Bool) (v v' : PyVal) (r r' : 
     assignAt h hv' v' r' [] (build h (.node (.pconst hv v r) ks)) = build h (.node (.pconst hv' v' r') ks) := by
   rw [build, construct, assignAt, build]
 
-/- The full statement — for every path `p` to a constant,
+/- (code without the repair of C16-F7)  The full statement — for every path `p` to a constant,
      `cached (assignAt h hv v r p (build h t)) = pyHash h (erase (assignAt h hv v r p (build h t)))` —
    is FALSE for `p ≠ []` (finding C16-F7): `assign` recomputes the constant's own hash only, the
    enclosing `Function`/`Lambda` objects keep the hash cached at construction. -/
@@ -148,6 +149,66 @@ theorem finding_assign_stale_hash :
     let fresh := appConst true (.atom (.int 5)) "5"
     pyEq hToy (erase o) fresh = true ∧ cached o ≠ pyHash hToy fresh ∧
       cached o = pyHash hToy (appConst false (.atom .none) "None") := by
+  decide
+
+/-! ### the repair proposed for C16-F7 (fixes_proposed/C16-F7.diff)
+
+  With the repair `Program.__hash__` recomputes the hash of a `Function`/`Lambda` from its
+  sub-programs whenever a constant has been assigned or reset since the hash was cached
+  (`hashAfter`, PS/Model/HashEq.lean).  The statement that was false is then true, for every
+  program, every history of `assign`/`reset` calls on its constants (at any depth) and every
+  hash seed.  `validOps`: each call targets a constant reached through `Function`/`Lambda` objects
+  only (the only way a constant occurs in a program). -/
+
+/-- **after any history of assignments the hash of the program is the hash of a freshly built
+    equal program** (repaired code): `hash(o) = hash(fresh)` for every `fresh == o` -/
+theorem C16_assign (h : HashFns) (hl : h.Lawful) (t : T) (ops : List Op)
+    (hv : validOps h ops (build h t) = true) :
+    let o := runOps h ops (build h t)
+    objHash h true o = pyHash h (erase o) ∧
+    ∀ fresh : T, pyEq h (erase o) fresh = true → objHash h true o = pyHash h fresh := by
+  intro o
+  have hg : Good h o := good_runOps h ops _ (good_build h hl t) hv
+  have h1 : objHash h true o = pyHash h (erase o) := by
+    rw [pyHash_eq_spec h hl]
+    simp only [objHash, if_true]
+    exact hashAfter_eq h o hg
+  exact ⟨h1, fun fresh he => by rw [h1]; exact C16_eq_hash h hl _ _ he⟩
+
+/-- hence the mutated program finds, and is found by, exactly the keys an equal fresh program
+    would (what `a in {b}` computes with the repaired `__hash__`) -/
+theorem C16_assign_memkey (h : HashFns) (hl : h.Lawful) (t : T) (ops : List Op)
+    (hv : validOps h ops (build h t) = true) (b : T) :
+    let o := runOps h ops (build h t)
+    (pyHash h b == objHash h true o && pyEq h b (erase o)) = pyEq h b (erase o) := by
+  intro o
+  have h1 := (C16_assign h hl t ops hv).1
+  cases he : pyEq h b (erase o) with
+  | false => simp
+  | true =>
+    have := C16_eq_hash h hl b (erase o) he
+    simp only [this, Bool.and_true, beq_iff_eq]
+    exact h1.symm
+
+/-- the witness of the finding with the repair: `(f <int>)`, `assign(5)`: the hash is now that of
+    the fresh `(f 5)`; then `reset()`: the hash of `(f <int>)` again -/
+theorem fixed_assign_stale_hash :
+    let ops : List Op := [⟨[1], true, .atom (.int 5), "5"⟩]
+    let ops2 : List Op := ops ++ [⟨[1], false, .atom .none, "None"⟩]
+    let t := appConst false (.atom .none) "None"
+    validOps hToy ops2 (build hToy t) = true ∧
+    objHash hToy true (runOps hToy ops (build hToy t)) = pyHash hToy (appConst true (.atom (.int 5)) "5") ∧
+    objHash hToy false (runOps hToy ops (build hToy t)) ≠ pyHash hToy (appConst true (.atom (.int 5)) "5") ∧
+    objHash hToy true (runOps hToy ops2 (build hToy t)) = pyHash hToy t := by
+  decide
+
+-- non-vacuity of `C16_assign`: a constant under a lambda under a function, two assignments
+example :
+    let t : T := .node (.pfun false) [fPrim, .node .plam [appConst false (.atom .none) "None", intT]]
+    let ops : List Op := [⟨[1, 0, 1], true, .atom (.int 5), "5"⟩, ⟨[1, 0, 1], true, .atom (.int 7), "7"⟩]
+    validOps hToy ops (build hToy t) = true ∧
+    erase (runOps hToy ops (build hToy t))
+      = .node (.pfun false) [fPrim, .node .plam [appConst true (.atom (.int 7)) "7", intT]] := by
   decide
 
 /-! ## non-vacuity -/
